@@ -1,15 +1,20 @@
 package main
 
 import (
+	"bytes"
 	"fmt"
 	"go/ast"
+	"go/format"
 	"go/parser"
 	"go/token"
 	"reflect"
+	"sort"
 	"strings"
 
 	"github.com/dave/dst"
 	"github.com/dave/dst/decorator"
+	"github.com/dave/dst/decorator/resolver/goast"
+	"github.com/dave/dst/decorator/resolver/guess"
 )
 
 // Correspondence of Model/Fragment.v: the positioned go/ast tree, the comments and the FileSet's
@@ -330,7 +335,120 @@ func pipeCorr(c *Ctx) {
 	c.caseSB.WriteString("Definition mismatch_pipeline := Eval vm_compute in bad_pcases frag_tbl ast_stmt_kinds ast_decl_kinds dec_universe dec_tbl rest_tbl pcases.\nPrint mismatch_pipeline.\nLocal Close Scope Z_scope.\n")
 }
 
+// The import-managed pipeline: decorate with an (accurate) identifier resolver, restore with a
+// package-name resolver; the model gets the decorator's final paths and the restorer's chosen package
+// names as data.  Files whose imports the restorer would edit are skipped (the tree the restorer
+// walks is then not the decorated one).
+func managedPipeCaseTerm(src string) (string, bool) {
+	if !isCanonical(src) {
+		return "", false
+	}
+	names := accurateNames(src)
+	fset := token.NewFileSet()
+	af, err := parser.ParseFile(fset, "a.go", src, parser.ParseComments)
+	if af == nil || err != nil {
+		return "", false
+	}
+	fc, _, ok := fragDecCaseTermOn(fset, af, false)
+	if !ok {
+		return "", false
+	}
+	d := lastAstDumper
+	dec := decorator.NewDecoratorWithImports(fset, "example.com/self", goast.WithResolver(guess.WithMap(names)))
+	var df *dst.File
+	var derr error
+	if pm := safely(func() { df, derr = dec.DecorateFile(af) }); pm != "" || derr != nil || df == nil {
+		return "", false
+	}
+	// unedited import-managed print must reproduce the file (C08): otherwise updateImports edits the tree
+	var buf bytes.Buffer
+	if e := decorator.NewRestorerWithImports("example.com/self", guess.WithMap(names)).Fprint(&buf, dst.Clone(df).(*dst.File)); e != nil || buf.String() != src {
+		return "", false
+	}
+	// the paths the decorator assigned, by go/ast node id
+	var paths []string
+	npaths := 0
+	d2 := &treeDumper{ids: map[dst.Node]int{}, strs: d.td.strs, refs: map[interface{}]int{}}
+	d2.nodes = make([]dst.Node, len(d.ids))
+	for dn, an := range dec.Map.Ast.Nodes {
+		id, ok := d.ids[an]
+		if !ok || id < 1 || id > len(d2.nodes) {
+			continue
+		}
+		d2.ids[dn] = id
+		d2.nodes[id-1] = dn
+	}
+	var ids []int
+	byID := map[int]string{}
+	for dn, id := range d2.ids {
+		if x, ok := dn.(*dst.Ident); ok && x.Path != "" {
+			ids = append(ids, id)
+			byID[id] = x.Path
+		}
+	}
+	sort.Ints(ids)
+	for _, id := range ids {
+		paths = append(paths, fmt.Sprintf("(%d%%N, (%d, %d%%N))", id, len(byID[id]), d.td.strID(byID[id])))
+		npaths++
+	}
+	if npaths == 0 {
+		return "", false
+	}
+	expect := d.td.Dump(df)
+	r := decorator.NewRestorerWithImports("example.com/self", guess.WithMap(names))
+	o := observeRestore(d2, df, r)
+	if o.panicked {
+		return "", false
+	}
+	pk := map[int]int{}
+	for dn, an := range r.Ast.Nodes {
+		if id, ok := dn.(*dst.Ident); ok && id.Path != "" {
+			if se, ok := an.(*ast.SelectorExpr); ok {
+				if x, ok := se.X.(*ast.Ident); ok {
+					pk[d.td.strID(id.Path)] = len(x.Name)
+				}
+			}
+		}
+	}
+	var keys []int
+	for k := range pk {
+		keys = append(keys, k)
+	}
+	sort.Ints(keys)
+	var ps []string
+	for _, k := range keys {
+		ps = append(ps, fmt.Sprintf("(%d%%N, %d)", k, pk[k]))
+	}
+	return fmt.Sprintf("mkMC (%s)\n  [%s] [%s]\n  (%s)\n  %d %s %d\n  %s\n  %s", fc, strings.Join(paths, "; "), strings.Join(ps, "; "),
+		expect, o.base, zl(o.lines), o.size, o.comments, o.pos), true
+}
+
+func managedPipeCorr(c *Ctx) {
+	var cases []string
+	srcs := append([]string{}, c08Sources...)
+	if b, err := format.Source([]byte(c08Positions)); err == nil {
+		srcs = append(srcs, string(b))
+	}
+	srcs = append(srcs, sinkSources...)
+	srcs = append(srcs, corrSources(c, c.N(4), 1500)...)
+	budget, used := c.Budget(800000), 0
+	for _, s := range srcs {
+		t, ok := managedPipeCaseTerm(s)
+		if !ok || used+len(t) > budget {
+			continue
+		}
+		used += len(t)
+		cases = append(cases, t)
+		c.Res.CaseInputs = appendCase(c.Res.CaseInputs, "mismatch_managed_pipeline", s)
+		c.Res.Traces++
+	}
+	c.caseSB.WriteString(coqCaseHeader + "From DV Require Import Model.FragSkel Model.Link Model.Fragment Model.FragCases Model.Decorate Model.DecCases Gen.Universe Gen.FragTbl Gen.DecTbl Gen.RestTbl.\nLocal Open Scope Z_scope.\n")
+	c.caseSB.WriteString("Definition mpcases : list mcase := [\n" + strings.Join(cases, ";\n") + "].\n")
+	c.caseSB.WriteString("Definition mismatch_managed_pipeline := Eval vm_compute in bad_mcases frag_tbl ast_stmt_kinds ast_decl_kinds dec_universe dec_tbl rest_tbl mpcases.\nPrint mismatch_managed_pipeline.\nLocal Close Scope Z_scope.\n")
+}
+
 func init() {
+	corrs["PIPEM"] = managedPipeCorr
 	corrs["FRAG"] = fragCorr
 	corrs["DEC"] = decCorr
 	corrs["C11"] = decCorr
